@@ -12,7 +12,7 @@ const F = { TEXT: 1, CLASS: 2, STYLE: 4, PROPS: 8, FULL_PROPS: 16, HYDRATE_EVENT
 
 const ALPHABET = ['strPlain', 'valueless', 'num', 'objConst', 'identUnbound', 'call', 'member', 'classStr', 'classExpr', 'styleObj', 'styleExpr',
   'key', 'ref', 'onClick', 'onOther', 'onUpdate', 'onUpdateModel', 'namespaced', 'spreadIdent', 'spreadObjLit', 'onObj', 'nativeOnObj',
-  'dirCustom', 'dirShow', 'html', 'textc', 'model', 'modelComputed', 'undef', 'arrow', 'template', 'onClickConst', 'onOtherConst', 'camelNsName', 'onVnodeHook', 'tsAsConstArr', 'tsAsConstObj', 'tsWrappedIdent'];
+  'dirCustom', 'dirShow', 'html', 'textc', 'model', 'modelComputed', 'undef', 'arrow', 'template', 'onClickConst', 'onOtherConst', 'camelNsName', 'onVnodeHook', 'tsAsConstArr', 'tsAsConstObj', 'tsWrappedIdent', 'unaryDyn', 'unaryConst'];
 
 function makeItem(b, rng, kind, st, hostInfo) {
   switch (kind) {
